@@ -5,31 +5,48 @@ usage: tools/regress.py [ids...]"""
 import glob, json, os, re, subprocess, sys, time
 ROOT = os.path.dirname(os.path.dirname(os.path.abspath(__file__)))
 jobs = []
+skipped = []
 for f in sorted(glob.glob(os.path.join(ROOT, "mutants", "*"))):
     b = os.path.basename(f)
     pid = "C" + re.match(r"c(\d+)", b).group(1)
-    jobs.append((pid, "mutants/" + b, f))
+    jobs.append((pid, "mutants/" + b, f, None))
 for f in sorted(glob.glob(os.path.join(ROOT, "seeded", "C*", "patch.diff"))):
     name = os.path.basename(os.path.dirname(f))
-    jobs.append((name[:3], "seeded/" + name, f))
+    rebased = os.path.join(os.path.dirname(f), "patch_rebased.diff")  # same change on the current tree (after a fix: commit)
+    if os.path.exists(rebased):
+        f = rebased
+    pid, base = name[:3], None
+    try:
+        meta = json.load(open(os.path.join(os.path.dirname(f), "meta.json")))
+        pid = meta.get("regress_check", pid)    # the check that is expected to report it, if not the property's own
+        base = meta.get("regress_base")          # the patch was written against this commit of /repo
+        if meta.get("regress_skip"):
+            skipped.append(dict(change="seeded/" + name, reason=meta["regress_skip"]))
+            continue
+    except Exception:
+        pass
+    jobs.append((pid, "seeded/" + name, f, base))
 want = set(sys.argv[1:])
 rows = []
-for pid, name, path in jobs:
+for pid, name, path, base in jobs:
     if want and pid not in want and name not in want:
         continue
     t0 = time.time()
-    r = subprocess.run([os.path.join(ROOT, "tools", "mutcheck.sh"), pid, path], capture_output=True, text=True)
+    env = dict(os.environ)
+    if base:
+        env["BASE_COMMIT"] = base
+    r = subprocess.run([os.path.join(ROOT, "tools", "mutcheck.sh"), pid, path], capture_output=True, text=True, env=env)
     out = r.stdout + r.stderr
     m = re.search(r"^  \[([^\]]+)\] (.*)$", out, re.M)
     pm = re.search(r"^  program: (.*)$", out, re.M)
     rc = re.search(r"mutcheck rc=(\d+)", out)
-    row = dict(property=pid, change=name, detected=(rc is not None and rc.group(1) == "1" and m is not None),
+    row = dict(property=pid, change=name, base_commit=base, detected=(rc is not None and rc.group(1) == "1" and m is not None),
                first_key=m.group(1) if m else None, message=m.group(2)[:160] if m else None,
                program=pm.group(1)[:160] if pm else None, wall_s=round(time.time() - t0, 1))
     rows.append(row)
     print(f"{pid} {name:32s} {'DETECTED' if row['detected'] else 'MISSED  '} {row['first_key']} ({row['wall_s']}s)", flush=True)
 if not want:
-    json.dump(dict(note="quick check of the property run on a scratch copy with the change applied", results=rows),
+    json.dump(dict(note="quick check of the property run on a scratch copy with the change applied", results=rows, not_rerun=skipped),
               open(os.path.join(ROOT, "evidence", "mutations.json"), "w"), indent=1)
 missed = [r for r in rows if not r["detected"]]
 print(f"{len(rows) - len(missed)}/{len(rows)} detected")
